@@ -151,6 +151,8 @@ class Sidecar:
                 continue
             if isinstance(st, ast.Import):
                 continue
+            if isinstance(st, ast.Assign) and len(st.targets) > 1:
+                continue            # native-only aliases
             if isinstance(st, ast.Assign) and len(st.targets) == 1 and isinstance(st.targets[0], ast.Name):
                 try:
                     self.consts[st.targets[0].id] = self._const(st.value)
